@@ -204,7 +204,8 @@ def run_c18(tier, seed):
     oc.rule = ('documents of every class and random rich documents through file/str/bytes/fake S3 (incl. ISO-8859-1 and UTF-16 '
                'bytes); reader metadata and double restore; all listings of 0..%d pages over 5 key sets x 2 prefixes x 3 suffixes '
                '(enumerated); three collection constructors; non-trivial = distinct document or a listing of >= 2 pages' % (3 if tier == 'quick' else 4))
-    oc.exhaustive = True
+    oc.exhaustive = False
+    oc.extra['exhaustive_part'] = 'the listing space (pages x key sets x prefixes x suffixes) is enumerated completely; documents are samples'
     return oc
 
 
